@@ -309,9 +309,11 @@ func vfC17Run(cs vfC17Case, res *vfC17Stats) string {
 		adoptOnce.Do(func() { close(adopted) }) // the client writes protocol lines on its tunnel connection: it was adopted
 	}
 	if cs.Junk {
-		sess.tunC2S.onMsg = func(m vfMsg, before bool) {
-			adoptOnce.Do(func() { close(adopted) })
-			if before || m.Typ != "ACT" || junkDone {
+		// in-band junk "after the tunnel is in use": once the server's first line has come back over the tunnel, every hop (the
+		// server, a relay, the client) demonstrably reads from its tunnel connection. Earlier than that a hop that has not yet
+		// processed the action still takes in-band bytes for what they are - input.
+		sess.tunS2C.onMsg = func(m vfMsg, before bool) {
+			if before || junkDone {
 				return
 			}
 			junkDone = true
@@ -434,6 +436,14 @@ func TestVF_C17(t *testing.T) {
 	vfCheck(t, c, vfGenC17, func(cs vfC17Case) string {
 		var st vfC17Stats
 		msg := vfC17Run(cs, &st)
+		if msg != "" && (strings.Contains(msg, "made the transfer fail") || strings.Contains(msg, "did not end") || strings.Contains(msg, "no tunnel was established")) {
+			// verdicts that depend on timeouts and grace periods of real processes must reproduce
+			var st2 vfC17Stats
+			if m2 := vfC17Run(cs, &st2); m2 == "" {
+				c.inconclusive("not_reproduced")
+				msg = ""
+			}
+		}
 		labels := []string{"scenario_" + cs.Scen.Name, "connector_" + cs.Connector, fmt.Sprintf("relays_%d", cs.Relays)}
 		if cs.Impostor != "" {
 			labels = append(labels, "impostor_"+cs.Impostor)
